@@ -81,6 +81,9 @@ SHAPES = {
     "two-contexts": [("both", {"v": [("probe_alpha", {"p": 1})]}), ("none", {"v": [("probe_beta", {"r": 9})]})],
     # C18: a raising probe, an unknown test, an unknown module and an absent stream among healthy entries
     "faults": [("both", {"v": [("probe_boom", {}), ("probe_alpha", {"p": 3}), ("no_such_test", {})], "ghost_stream": [("probe_beta", {})]})],
+    # the same fault kinds at the *first* position of a context (the absent stream listed first, a healthy
+    # entry after it) and a second context whose first entry raises
+    "faults-first": [("none", {"ghost_stream": [("probe_beta", {})], "v": [("probe_alpha", {"p": 3})]}), ("both", {"v": [("probe_boom", {}), ("probe_beta", {"r": 4})]})],
 }
 
 
@@ -221,7 +224,7 @@ class StreamRun(Case):
             if win:
                 c_["window"] = win
             for sid, tests in streams.items():
-                c_["streams"][sid] = {"pyvc_probe": {name: dict(params) for name, params in tests}, "no_such_module": {"x": {}}} if self.params["shape"] == "faults" else {"pyvc_probe": {name: dict(params) for name, params in tests}}
+                c_["streams"][sid] = {"pyvc_probe": {name: dict(params) for name, params in tests}, "no_such_module": {"x": {}}} if self.params["shape"].startswith("faults") else {"pyvc_probe": {name: dict(params) for name, params in tests}}
             ctxs.append(c_)
         config = cfgm.Config({"contexts": ctxs})
         kind = self.params["stream"]
@@ -260,7 +263,7 @@ class StreamRun(Case):
             if win:
                 c_["window"] = win
             for sid, tests in streams.items():
-                c_["streams"][sid] = {"pyvc_probe": {name: dict(params) for name, params in tests}, "no_such_module": {"x": {}}} if self.params["shape"] == "faults" else {"pyvc_probe": {name: dict(params) for name, params in tests}}
+                c_["streams"][sid] = {"pyvc_probe": {name: dict(params) for name, params in tests}, "no_such_module": {"x": {}}} if self.params["shape"].startswith("faults") else {"pyvc_probe": {name: dict(params) for name, params in tests}}
             ctxs.append(c_)
         return mod_cfg.Config({"contexts": ctxs})
 
